@@ -75,7 +75,11 @@ func (r *RedisError) IsNil() bool {
 // IsMoved checks if it is a redis MOVED message and returns the moved address.
 func (r *RedisError) IsMoved() (addr string, ok bool) {
 	if ok = strings.HasPrefix(r.string(), "MOVED"); ok {
-		addr = fixIPv6HostPort(strings.Split(r.string(), " ")[2])
+		if parts := strings.Split(r.string(), " "); len(parts) > 2 {
+			addr = fixIPv6HostPort(parts[2])
+		} else {
+			ok = false // malformed MOVED reply without an address
+		}
 	}
 	return
 }
@@ -83,7 +87,11 @@ func (r *RedisError) IsMoved() (addr string, ok bool) {
 // IsAsk checks if it is a redis ASK message and returns ask address.
 func (r *RedisError) IsAsk() (addr string, ok bool) {
 	if ok = strings.HasPrefix(r.string(), "ASK"); ok {
-		addr = fixIPv6HostPort(strings.Split(r.string(), " ")[2])
+		if parts := strings.Split(r.string(), " "); len(parts) > 2 {
+			addr = fixIPv6HostPort(parts[2])
+		} else {
+			ok = false // malformed ASK reply without an address
+		}
 	}
 	return
 }
@@ -91,7 +99,11 @@ func (r *RedisError) IsAsk() (addr string, ok bool) {
 // IsRedirect checks if it is a redis REDIRECT message and returns redirect address.
 func (r *RedisError) IsRedirect() (addr string, ok bool) {
 	if ok = strings.HasPrefix(r.string(), "REDIRECT"); ok {
-		addr = fixIPv6HostPort(strings.Split(r.string(), " ")[1])
+		if parts := strings.Split(r.string(), " "); len(parts) > 1 {
+			addr = fixIPv6HostPort(parts[1])
+		} else {
+			ok = false // malformed REDIRECT reply without an address
+		}
 	}
 	return
 }
